@@ -1,10 +1,438 @@
 import EpModel.Model.Setters
-/-
-  C14 — out-of-range lengths and values are rejected, never truncated.  (skeleton)
--/
+import EpModel.Props.C08Net
+import EpModel.Props.C08Link
 namespace EpModel.Props.C14
-open EpModel EpModel.Setters
+open EpModel EpModel.Setters EpModel.CodecNet
 
-theorem placeholder : True := trivial
+theorem ipv4_totalLen_field (h : Ipv4Header) (wf : h.WF) : be16 h.toBytes 2 = h.totalLen := by
+  rw [Lemmas.CodecNet.Ipv4.toBytes_eq h wf, Lemmas.CodecNet.Ipv4.fixedPart_eq h _ wf]
+  have := wf.2.2.1
+  simp [be16, bAt]
+  omega
+
+namespace Ipv4New
+
+theorem accepts_iff (n ttl proto : Nat) (src dst : Bytes) :
+    isOk (ipv4New n ttl proto src dst) = true ↔ n + 20 ≤ 65535 := by
+  unfold ipv4New; split <;> simp [isOk] <;> omega
+
+theorem rejects_with (n ttl proto : Nat) (src dst : Bytes) (h : ¬ n + 20 ≤ 65535) :
+    ipv4New n ttl proto src dst =
+      .error { actual := n, maxAllowed := 65535 - 20, vt := .ipv4PayloadLength } := by
+  unfold ipv4New; rw [if_pos (by omega)]
+
+theorem encodes_exactly (n ttl proto : Nat) (src dst tail : Bytes) (h : Ipv4Header)
+    (httl : ttl < 256) (hproto : proto < 256) (hsrc : src.length = 4) (hdst : dst.length = 4)
+    (hok : ipv4New n ttl proto src dst = .ok h) :
+    h.WF ∧ Ipv4Header.fromSlice (h.toBytes ++ tail) = .ok (h, tail) ∧ h.totalLen = n + 20 ∧
+      be16 h.toBytes 2 = n + 20 := by
+  unfold ipv4New at hok
+  split at hok
+  · cases hok
+  · injection hok with hok
+    have wf : h.WF := by
+      subst hok; unfold Ipv4Header.WF; simp [hsrc, hdst, httl, hproto]; omega
+    have ht : h.totalLen = n + 20 := by subst hok; simp; omega
+    exact ⟨wf, C08Net.Ipv4.decode_encode h tail wf, ht, by rw [ipv4_totalLen_field h wf, ht]⟩
+
+end Ipv4New
+
+/-! ## `Ipv4Header::set_payload_len` / `max_payload_len` -/
+namespace Ipv4SetPayloadLen
+
+/-- the stated maximum is the true maximum: `max_payload_len() + header_len() = 65535`. -/
+theorem max_is_true_max (h : Ipv4Header) (wf : h.WF) : ipv4MaxPayloadLen h + h.headerLen = 65535 := by
+  have := wf.2.2.2.2.2.2.2.2.2.2.1
+  unfold ipv4MaxPayloadLen Ipv4Header.optLenU8 Ipv4Header.headerLen; omega
+
+theorem accepts_iff (h : Ipv4Header) (wf : h.WF) (n : Nat) :
+    isOk (ipv4SetPayloadLen h n).1 = true ↔ n + h.headerLen ≤ 65535 := by
+  have := max_is_true_max h wf
+  unfold ipv4SetPayloadLen
+  simp only
+  split <;> simp [isOk] <;> omega
+
+theorem rejects_with (h : Ipv4Header) (wf : h.WF) (n : Nat) (hn : ¬ n + h.headerLen ≤ 65535) :
+    ipv4SetPayloadLen h n =
+      (.error { actual := n, maxAllowed := 65535 - h.headerLen, vt := .ipv4PayloadLength }, h) := by
+  have := max_is_true_max h wf
+  unfold ipv4SetPayloadLen
+  simp only
+  rw [if_pos (by omega)]
+  congr 3; omega
+
+/-- the header comes back untouched from every rejected call (no hypothesis on the header). -/
+theorem unchanged_on_error (h : Ipv4Header) (n : Nat) (hn : isOk (ipv4SetPayloadLen h n).1 = false) :
+    (ipv4SetPayloadLen h n).2 = h := by
+  unfold ipv4SetPayloadLen at hn ⊢
+  simp only at hn ⊢
+  split <;> simp_all [isOk]
+
+theorem encodes_exactly (h : Ipv4Header) (wf : h.WF) (n : Nat) (tail : Bytes)
+    (hok : isOk (ipv4SetPayloadLen h n).1 = true) :
+    let h' := (ipv4SetPayloadLen h n).2
+    h'.WF ∧ Ipv4Header.fromSlice (h'.toBytes ++ tail) = .ok (h', tail) ∧
+      h'.totalLen = n + h.headerLen ∧ be16 h'.toBytes 2 = n + h.headerLen ∧
+      h' = { h with totalLen := n + h.headerLen } := by
+  have hfit := (accepts_iff h wf n).1 hok
+  have hmax := max_is_true_max h wf
+  unfold ipv4SetPayloadLen
+  simp only
+  rw [if_neg (by omega)]
+  simp only
+  have e : (h.headerLen + n) % 65536 = n + h.headerLen := by omega
+  rw [e]
+  have wf' : Ipv4Header.WF { h with totalLen := n + h.headerLen } := by
+    obtain ⟨a, b, _, d⟩ := wf
+    exact ⟨a, b, by show n + h.headerLen < 65536; omega, d⟩
+  exact ⟨wf', C08Net.Ipv4.decode_encode _ tail wf', rfl, ipv4_totalLen_field _ wf', rfl⟩
+
+/-- without the check the `as u16` cast truncates: the length just above the maximum would be
+    stored as 0. -/
+theorem wraps_without_check (h : Ipv4Header) (wf : h.WF) :
+    (h.headerLen + (ipv4MaxPayloadLen h + 1)) % 65536 = 0 := by
+  have := max_is_true_max h wf; omega
+
+end Ipv4SetPayloadLen
+
+/-! ## `Ipv6Header::set_payload_length` -/
+
+theorem ipv6_payloadLength_field (h : Ipv6Header) (wf : h.WF) : be16 h.toBytes 4 = h.payloadLength := by
+  have := wf.2.2.1
+  simp [Ipv6Header.toBytes, be16, bAt]
+  omega
+
+namespace Ipv6SetPayloadLength
+
+theorem accepts_iff (h : Ipv6Header) (n : Nat) :
+    isOk (ipv6SetPayloadLength h n).1 = true ↔ n ≤ 65535 := by
+  unfold ipv6SetPayloadLength
+  split <;> simp [isOk] <;> omega
+
+theorem rejects_with (h : Ipv6Header) (n : Nat) (hn : ¬ n ≤ 65535) :
+    ipv6SetPayloadLength h n =
+      (.error { actual := n, maxAllowed := 65535, vt := .ipv6PayloadLength }, h) := by
+  unfold ipv6SetPayloadLength
+  rw [if_pos (by omega)]
+
+theorem encodes_exactly (h : Ipv6Header) (wf : h.WF) (n : Nat) (tail : Bytes) (hn : n ≤ 65535) :
+    let h' := (ipv6SetPayloadLength h n).2
+    (ipv6SetPayloadLength h n).1 = .ok () ∧
+    h'.WF ∧ Ipv6Header.fromSlice (h'.toBytes ++ tail) = .ok (h', tail) ∧
+      h'.payloadLength = n ∧ be16 h'.toBytes 4 = n ∧ h' = { h with payloadLength := n } := by
+  unfold ipv6SetPayloadLength
+  rw [if_neg (by omega)]
+  simp only
+  have e : n % 65536 = n := by omega
+  rw [e]
+  have wf' : Ipv6Header.WF { h with payloadLength := n } := by
+    obtain ⟨a, b, _, d⟩ := wf
+    exact ⟨a, b, by show n < 65536; omega, d⟩
+  exact ⟨trivial, wf', C08Net.Ipv6.decode_encode _ tail wf', rfl, ipv6_payloadLength_field _ wf', rfl⟩
+
+theorem wraps_without_check : (65535 + 1) % 65536 = 0 ∧ (65536 + 1500) % 65536 = 1500 := by decide
+
+end Ipv6SetPayloadLength
+
+
+/-! ## `IpHeaders::set_payload_len` -/
+namespace IpHeadersSetPayloadLen
+
+/-- IPv4 (+ authentication header): the overhead is the IPv4 header plus the extension headers. -/
+theorem v4_accepts_iff (h : Ipv4Header) (wf : h.WF) (e : Ipv4Extensions) (n : Nat) :
+    isOk (ipHeadersSetPayloadLen (.v4 h e) n).1 = true ↔ n + e.headerLen + h.headerLen ≤ 65535 := by
+  unfold ipHeadersSetPayloadLen
+  simp only
+  split
+  · exact Ipv4SetPayloadLen.accepts_iff h wf (n + e.headerLen)
+  · simp [isOk, usizeMax] at *; omega
+
+/-- rejected, sum representable in `usize`: the error is the one of the IPv4 header, about the
+    payload of the IPv4 header (extension headers + n); header and extensions unchanged. -/
+theorem v4_rejects_with (h : Ipv4Header) (wf : h.WF) (e : Ipv4Extensions) (n : Nat)
+    (hn : ¬ n + e.headerLen + h.headerLen ≤ 65535) (hu : n + e.headerLen ≤ usizeMax) :
+    ipHeadersSetPayloadLen (.v4 h e) n =
+      (.error { actual := n + e.headerLen, maxAllowed := 65535 - h.headerLen,
+                vt := .ipv4PayloadLength }, .v4 h e) := by
+  unfold ipHeadersSetPayloadLen
+  simp only
+  rw [if_pos hu, Ipv4SetPayloadLen.rejects_with h wf _ hn]
+
+/-- rejected because `len + ext_len` overflows `usize`: error about `len` itself with the maximum
+    for `len`; unchanged. -/
+theorem v4_rejects_with_overflow (h : Ipv4Header) (e : Ipv4Extensions) (n : Nat)
+    (hu : ¬ n + e.headerLen ≤ usizeMax) :
+    ipHeadersSetPayloadLen (.v4 h e) n =
+      (.error { actual := n, maxAllowed := 65535 - h.headerLen - e.headerLen,
+                vt := .ipv4PayloadLength }, .v4 h e) := by
+  unfold ipHeadersSetPayloadLen
+  simp only
+  rw [if_neg hu]
+
+/-- in both rejection frames the reported pair describes the same excess:
+    `actual - max_allowed = (n + c) - 65535` -/
+theorem v4_error_consistent (h : Ipv4Header) (wf : h.WF) (e : Ipv4Extensions) (n : Nat) (err : TooBig)
+    (he : e.headerLen + h.headerLen ≤ 65535)
+    (hr : (ipHeadersSetPayloadLen (.v4 h e) n).1 = .error err) :
+    err.actual + 65535 = err.maxAllowed + (n + e.headerLen + h.headerLen) ∧
+      err.maxAllowed < err.actual ∧ err.vt = .ipv4PayloadLength ∧
+      (ipHeadersSetPayloadLen (.v4 h e) n).2 = .v4 h e := by
+  have hn : ¬ n + e.headerLen + h.headerLen ≤ 65535 := by
+    intro hc
+    have := (v4_accepts_iff h wf e n).2 hc
+    rw [hr] at this; simp [isOk] at this
+  by_cases hu : n + e.headerLen ≤ usizeMax
+  · rw [v4_rejects_with h wf e n hn hu] at hr ⊢
+    injection hr with hr; subst hr
+    exact ⟨by simp only; omega, by simp only; omega, rfl, rfl⟩
+  · rw [v4_rejects_with_overflow h e n hu] at hr ⊢
+    injection hr with hr; subst hr
+    exact ⟨by simp only; omega, by simp only; omega, rfl, rfl⟩
+
+theorem v4_encodes_exactly (h : Ipv4Header) (wf : h.WF) (e : Ipv4Extensions) (n : Nat) (tail : Bytes)
+    (hn : n + e.headerLen + h.headerLen ≤ 65535) :
+    ∃ h' : Ipv4Header, ipHeadersSetPayloadLen (.v4 h e) n = (.ok (), .v4 h' e) ∧
+      h'.WF ∧ Ipv4Header.fromSlice (h'.toBytes ++ tail) = .ok (h', tail) ∧
+      be16 h'.toBytes 2 = n + e.headerLen + h.headerLen ∧
+      h' = { h with totalLen := n + e.headerLen + h.headerLen } := by
+  have hok := (Ipv4SetPayloadLen.accepts_iff h wf (n + e.headerLen)).2 hn
+  obtain ⟨w, d, _, f, g⟩ := Ipv4SetPayloadLen.encodes_exactly h wf (n + e.headerLen) tail hok
+  refine ⟨(ipv4SetPayloadLen h (n + e.headerLen)).2, ?_, w, d, f, g⟩
+  unfold ipHeadersSetPayloadLen
+  simp only
+  rw [if_pos (by unfold usizeMax; omega)]
+  generalize hr : ipv4SetPayloadLen h (n + e.headerLen) = r at hok
+  obtain ⟨r1, r2⟩ := r
+  cases r1 with
+  | ok u => rfl
+  | error _ => simp [isOk] at hok
+
+/-- IPv6 (+ extension headers) -/
+theorem v6_accepts_iff (h : Ipv6Header) (e : Ipv6Exts) (n : Nat) :
+    isOk (ipHeadersSetPayloadLen (.v6 h e) n).1 = true ↔ n + e.headerLen ≤ 65535 := by
+  unfold ipHeadersSetPayloadLen
+  simp only
+  split
+  · exact Ipv6SetPayloadLength.accepts_iff h (n + e.headerLen)
+  · simp [isOk, usizeMax] at *; omega
+
+theorem v6_rejects_with (h : Ipv6Header) (e : Ipv6Exts) (n : Nat)
+    (hn : ¬ n + e.headerLen ≤ 65535) (hu : n + e.headerLen ≤ usizeMax) :
+    ipHeadersSetPayloadLen (.v6 h e) n =
+      (.error { actual := n + e.headerLen, maxAllowed := 65535, vt := .ipv6PayloadLength },
+       .v6 h e) := by
+  unfold ipHeadersSetPayloadLen
+  simp only
+  rw [if_pos hu, Ipv6SetPayloadLength.rejects_with h _ hn]
+
+/-- the `usize` overflow branch of the IPv6 arm (only reachable with `len > 2^64 - 1 - ext_len`,
+    outside the property's quantifier 0..2^32): the maximum is the right one for `len`, but the
+    value type names the IPv4 field — the code says `ValueType::Ipv4PayloadLength` here. -/
+theorem v6_rejects_with_overflow (h : Ipv6Header) (e : Ipv6Exts) (n : Nat)
+    (hu : ¬ n + e.headerLen ≤ usizeMax) :
+    ipHeadersSetPayloadLen (.v6 h e) n =
+      (.error { actual := n, maxAllowed := 65535 - e.headerLen, vt := .ipv4PayloadLength },
+       .v6 h e) := by
+  unfold ipHeadersSetPayloadLen
+  simp only
+  rw [if_neg hu]
+
+/-- inside the quantified domain the overflow branch is not taken, so the value type is right. -/
+theorem v6_value_type_in_domain (h : Ipv6Header) (e : Ipv6Exts) (n : Nat) (err : TooBig)
+    (hn : n ≤ 2 ^ 32) (he : e.headerLen ≤ 65535)
+    (hr : (ipHeadersSetPayloadLen (.v6 h e) n).1 = .error err) :
+    err = { actual := n + e.headerLen, maxAllowed := 65535, vt := .ipv6PayloadLength } ∧
+      (ipHeadersSetPayloadLen (.v6 h e) n).2 = .v6 h e := by
+  have hu : n + e.headerLen ≤ usizeMax := by unfold usizeMax; omega
+  have hnn : ¬ n + e.headerLen ≤ 65535 := by
+    intro hc
+    have := (v6_accepts_iff h e n).2 hc
+    rw [hr] at this; simp [isOk] at this
+  rw [v6_rejects_with h e n hnn hu] at hr ⊢
+  injection hr with hr
+  exact ⟨hr.symm, rfl⟩
+
+theorem v6_encodes_exactly (h : Ipv6Header) (wf : h.WF) (e : Ipv6Exts) (n : Nat) (tail : Bytes)
+    (hn : n + e.headerLen ≤ 65535) :
+    ∃ h' : Ipv6Header, ipHeadersSetPayloadLen (.v6 h e) n = (.ok (), .v6 h' e) ∧
+      h'.WF ∧ Ipv6Header.fromSlice (h'.toBytes ++ tail) = .ok (h', tail) ∧
+      be16 h'.toBytes 4 = n + e.headerLen ∧ h' = { h with payloadLength := n + e.headerLen } := by
+  obtain ⟨ok, w, d, _, f, g⟩ := Ipv6SetPayloadLength.encodes_exactly h wf (n + e.headerLen) tail hn
+  refine ⟨(ipv6SetPayloadLength h (n + e.headerLen)).2, ?_, w, d, f, g⟩
+  unfold ipHeadersSetPayloadLen
+  simp only
+  rw [if_pos (by unfold usizeMax; omega), ok]
+
+end IpHeadersSetPayloadLen
+
+
+/-! ## UDP -/
+
+theorem swap16_lt (v : Nat) : Checksum.swap16 v < 65536 := by
+  unfold Checksum.swap16; omega
+
+theorem udp_length_field (h : Codec.Udp) (wf : h.WF) : be16 h.toBytes 4 = h.len := by
+  obtain ⟨_, _, hl, _⟩ := wf
+  simp [Codec.Udp.toBytes, enc16, be16, bAt]
+  omega
+
+namespace UdpWithoutIpv4Checksum
+
+theorem accepts_iff (sp dp n : Nat) :
+    isOk (udpWithoutIpv4Checksum sp dp n) = true ↔ n + 8 ≤ 65535 := by
+  unfold udpWithoutIpv4Checksum; split <;> simp [isOk] <;> omega
+
+theorem rejects_with (sp dp n : Nat) (hn : ¬ n + 8 ≤ 65535) :
+    udpWithoutIpv4Checksum sp dp n =
+      .error { actual := n, maxAllowed := 65535 - 8, vt := .udpPayloadLengthIpv4 } := by
+  unfold udpWithoutIpv4Checksum; rw [if_pos (by omega)]
+
+theorem encodes_exactly (sp dp n : Nat) (tail : Bytes) (h : Codec.Udp) (hsp : sp < 65536)
+    (hdp : dp < 65536) (hok : udpWithoutIpv4Checksum sp dp n = .ok h) :
+    h = { sp := sp, dp := dp, len := n + 8, ck := 0 } ∧ h.WF ∧
+      Codec.Udp.fromSlice (h.toBytes ++ tail) = .ok (h, tail) ∧ be16 h.toBytes 4 = n + 8 := by
+  unfold udpWithoutIpv4Checksum at hok
+  split at hok
+  · cases hok
+  · injection hok with hok
+    have e : (8 + n) % 65536 = n + 8 := by omega
+    rw [e] at hok
+    subst hok
+    have wf : Codec.Udp.WF { sp := sp, dp := dp, len := n + 8, ck := 0 } :=
+      ⟨hsp, hdp, by show n + 8 < 65536; omega, by show (0 : Nat) < 65536; omega⟩
+    exact ⟨rfl, wf, C08Link.Udp.decode_encode _ tail wf, udp_length_field _ wf⟩
+
+/-- without the check `(8 + n) as u16` truncates: 65528 payload bytes would be stored as length 0. -/
+theorem wraps_without_check : (8 + 65528) % 65536 = 0 := by decide
+
+end UdpWithoutIpv4Checksum
+
+namespace UdpWithChecksum
+
+theorem v4_accepts_iff (sp dp : Nat) (src dst payload : Bytes) :
+    isOk (udpWithIpv4Checksum sp dp src dst payload) = true ↔ payload.length + 8 ≤ 65535 := by
+  unfold udpWithIpv4Checksum; split <;> simp [isOk] <;> omega
+
+theorem v4_rejects_with (sp dp : Nat) (src dst payload : Bytes) (hn : ¬ payload.length + 8 ≤ 65535) :
+    udpWithIpv4Checksum sp dp src dst payload =
+      .error { actual := payload.length, maxAllowed := 65535 - 8, vt := .udpPayloadLengthIpv4 } := by
+  unfold udpWithIpv4Checksum; rw [if_pos (by omega)]
+
+/-- accepted: the length field is `payload.len() + 8` exactly and the checksum is the one of the
+    header carrying that length (so the pseudo header carries it too). -/
+theorem v4_encodes_exactly (sp dp : Nat) (src dst payload tail : Bytes) (h : Codec.Udp)
+    (hsp : sp < 65536) (hdp : dp < 65536) (hok : udpWithIpv4Checksum sp dp src dst payload = .ok h) :
+    h.len = payload.length + 8 ∧
+      h.ck = udpCkIpv4Internal { sp := sp, dp := dp, len := payload.length + 8, ck := 0 } src dst payload ∧
+      h.sp = sp ∧ h.dp = dp ∧ h.WF ∧
+      Codec.Udp.fromSlice (h.toBytes ++ tail) = .ok (h, tail) ∧
+      be16 h.toBytes 4 = payload.length + 8 := by
+  unfold udpWithIpv4Checksum at hok
+  split at hok
+  · cases hok
+  · injection hok with hok
+    have e : (8 + payload.length) % 65536 = payload.length + 8 := by omega
+    rw [e] at hok
+    have hl : h.len = payload.length + 8 := by subst hok; rfl
+    have wf : h.WF := by
+      subst hok; exact ⟨hsp, hdp, by show payload.length + 8 < 65536; omega, swap16_lt _⟩
+    exact ⟨hl, by subst hok; rfl, by subst hok; rfl, by subst hok; rfl, wf,
+      C08Link.Udp.decode_encode h tail wf, by rw [udp_length_field h wf, hl]⟩
+
+theorem v6_accepts_iff (sp dp : Nat) (src dst payload : Bytes) :
+    isOk (udpWithIpv6Checksum sp dp src dst payload) = true ↔ payload.length + 8 ≤ 65535 := by
+  unfold udpWithIpv6Checksum; split <;> simp [isOk] <;> omega
+
+theorem v6_rejects_with (sp dp : Nat) (src dst payload : Bytes) (hn : ¬ payload.length + 8 ≤ 65535) :
+    udpWithIpv6Checksum sp dp src dst payload =
+      .error { actual := payload.length, maxAllowed := 65535 - 8, vt := .udpPayloadLengthIpv6 } := by
+  unfold udpWithIpv6Checksum; rw [if_pos (by omega)]
+
+theorem v6_encodes_exactly (sp dp : Nat) (src dst payload tail : Bytes) (h : Codec.Udp)
+    (hsp : sp < 65536) (hdp : dp < 65536) (hok : udpWithIpv6Checksum sp dp src dst payload = .ok h) :
+    h.len = payload.length + 8 ∧
+      h.ck = udpCkIpv6Internal { sp := sp, dp := dp, len := payload.length + 8, ck := 0 } src dst payload ∧
+      h.sp = sp ∧ h.dp = dp ∧ h.WF ∧
+      Codec.Udp.fromSlice (h.toBytes ++ tail) = .ok (h, tail) ∧
+      be16 h.toBytes 4 = payload.length + 8 := by
+  unfold udpWithIpv6Checksum at hok
+  split at hok
+  · cases hok
+  · injection hok with hok
+    have e : (8 + payload.length) % 65536 = payload.length + 8 := by omega
+    rw [e] at hok
+    have hl : h.len = payload.length + 8 := by subst hok; rfl
+    have wf : h.WF := by
+      subst hok; exact ⟨hsp, hdp, by show payload.length + 8 < 65536; omega, swap16_lt _⟩
+    exact ⟨hl, by subst hok; rfl, by subst hok; rfl, by subst hok; rfl, wf,
+      C08Link.Udp.decode_encode h tail wf, by rw [udp_length_field h wf, hl]⟩
+
+end UdpWithChecksum
+
+namespace UdpCalcChecksum
+
+theorem v4_accepts_iff (h : Codec.Udp) (src dst payload : Bytes) :
+    isOk (udpCalcChecksumIpv4Raw h src dst payload) = true ↔ payload.length + 8 ≤ 65535 := by
+  unfold udpCalcChecksumIpv4Raw; split <;> simp [isOk] <;> omega
+
+theorem v4_rejects_with (h : Codec.Udp) (src dst payload : Bytes) (hn : ¬ payload.length + 8 ≤ 65535) :
+    udpCalcChecksumIpv4Raw h src dst payload =
+      .error { actual := payload.length, maxAllowed := 65535 - 8, vt := .udpPayloadLengthIpv4 } := by
+  unfold udpCalcChecksumIpv4Raw; rw [if_pos (by omega)]
+
+/-- the length summed into the pseudo header is the header's own 16 bit length field (RFC 768);
+    for every accepted payload there is a header value for which this is the true length. -/
+theorem v4_encodes_exactly (h : Codec.Udp) (src dst payload : Bytes) (hn : payload.length + 8 ≤ 65535) :
+    udpCalcChecksumIpv4Raw h src dst payload = .ok (udpCkIpv4Internal h src dst payload) ∧
+      be16 (udpPseudoLen { h with len := payload.length + 8 }) 0 = payload.length + 8 := by
+  unfold udpCalcChecksumIpv4Raw
+  rw [if_neg (by omega)]
+  refine ⟨rfl, ?_⟩
+  simp [udpPseudoLen, enc16, be16, bAt]; omega
+
+theorem v6_accepts_iff (h : Codec.Udp) (src dst payload : Bytes) :
+    isOk (udpCalcChecksumIpv6Raw h src dst payload) = true ↔ payload.length + 8 ≤ 4294967295 := by
+  unfold udpCalcChecksumIpv6Raw; split <;> simp [isOk] <;> omega
+
+theorem v6_rejects_with (h : Codec.Udp) (src dst payload : Bytes)
+    (hn : ¬ payload.length + 8 ≤ 4294967295) :
+    udpCalcChecksumIpv6Raw h src dst payload =
+      .error { actual := payload.length, maxAllowed := 4294967295 - 8, vt := .udpPayloadLengthIpv6 } := by
+  unfold udpCalcChecksumIpv6Raw; rw [if_pos (by omega)]
+
+/-- FULL STATEMENT (false for the code as it is, see `v6_pseudo_length_full_statement_false`;
+    known finding F14): every payload length `calc_checksum_ipv6_raw` accepts can be put into the
+    pseudo header, i.e. there is a header value whose pseudo header length is `payload.len() + 8`.
+    The IPv6 pseudo header has a 32 bit upper-layer length (RFC 8200 §8.1, RFC 2675 §4 for UDP
+    beyond 65535), the code sums the 16 bit `self.length`. -/
+def v6_pseudo_length_full_statement : Prop :=
+  ∀ (h : Codec.Udp) (src dst payload : Bytes),
+    isOk (udpCalcChecksumIpv6Raw h src dst payload) = true →
+      ∃ len : Nat, be16 (udpPseudoLen { h with len := len } ++ []) 0 = payload.length + 8
+
+/-- what holds: the statement restricted to payloads the 16 bit length field can describe
+    (exactly the payloads `with_ipv6_checksum` accepts). -/
+theorem v6_pseudo_length_partial (h : Codec.Udp) (src dst payload : Bytes)
+    (hn : payload.length + 8 ≤ 65535) :
+    udpCalcChecksumIpv6Raw h src dst payload = .ok (udpCkIpv6Internal h src dst payload) ∧
+      be16 (udpPseudoLen { h with len := payload.length + 8 } ++ []) 0 = payload.length + 8 := by
+  unfold udpCalcChecksumIpv6Raw
+  rw [if_neg (by omega)]
+  refine ⟨rfl, ?_⟩
+  simp [udpPseudoLen, enc16, be16, bAt]; omega
+
+/-- the negation on the model: 65528 payload bytes are accepted, and no header value makes the
+    pseudo header carry the length 65536. -/
+theorem v6_pseudo_length_full_statement_false : ¬ v6_pseudo_length_full_statement := by
+  intro hfull
+  have hacc : isOk (udpCalcChecksumIpv6Raw ⟨0, 0, 0, 0⟩ [] [] (List.replicate 65528 0)) = true := by
+    rw [v6_accepts_iff, List.length_replicate]; omega
+  obtain ⟨len, hlen⟩ := hfull ⟨0, 0, 0, 0⟩ [] [] (List.replicate 65528 0) hacc
+  have hlt : be16 (udpPseudoLen { (⟨0, 0, 0, 0⟩ : Codec.Udp) with len := len } ++ []) 0 < 65536 :=
+    be16_lt _ _
+  rw [hlen, List.length_replicate] at hlt
+  omega
+
+end UdpCalcChecksum
 
 end EpModel.Props.C14
